@@ -185,9 +185,13 @@ def main():
     if ck.replay_arg:
         import json
         r = json.load(open(ck.replay_arg))
-        p = os.path.join(d, 'replay.bin')
-        open(p, 'wb').write(bytes.fromhex(r['binary_hex']))
-        bins = [(p, 'replay')]
+        replay_mal = None
+        if 'binary_hex' in r:
+            p = os.path.join(d, 'replay.bin')
+            open(p, 'wb').write(bytes.fromhex(r['binary_hex']))
+            bins = [(p, 'replay')]
+        elif 'tag' in r:                       # a malformed-file replay
+            replay_mal = [(r['tag'], bytes.fromhex(r['file_hex']) if r.get('file_hex') is not None else None)]
     else:
         for k in range(nimg):
             p = os.path.join(d, 'u%d.bin' % k)
@@ -281,7 +285,7 @@ def main():
     if not hexsim or not hexsim_o0 or rcc0 != 0:
         ck.broken.append('hexsim (-O1/-O0) or the dirty-stack preload does not build: the malformed-file runs cannot be made')
     else:
-        mal = malformed_files(rng) if not ck.replay_arg else []
+        mal = malformed_files(rng) if not ck.replay_arg else (replay_mal or [])
         if ck.thorough():
             for _ in range(15):
                 mal += malformed_files(rng)
@@ -369,6 +373,8 @@ def main():
             cut_runs.append(('hexsim', pre + [hexsim, lb, '--max-cycles', '20'], env))
         if xrun:
             cut_runs.append(('xrun', pre + [xrun, 'loop.x', '--max-cycles', '100'], env))
+    if ck.replay_arg:
+        cut_runs = []          # a replay judges the replayed binary/file only
     for tool, cmd, env in cut_runs:
         rc5, o5, e5 = run3(cmd, cwd=d, stdin=open(ip, 'rb'), env=env, timeout=60)
         if cmd[0] == 'setarch' and rc5 != 0 and b'setarch' in e5:
